@@ -18,3 +18,4 @@ open Just.C10
 #print axioms file_format_idempotent
 #print axioms parsed_file_is_wellformed
 #print axioms format_of_any_file
+#print axioms format_of_any_file_eventually
